@@ -263,30 +263,55 @@ Proof.
 Qed.
 
 (* ------------------------------------------------------------------------------------------ *)
-(** * The unique-index probe *)
+(** * The unique-index probes *)
 
-Lemma uniq_probe_no_panic : forall t sc rows l,
-  (forall k x r, In (k, x) l -> In r rows -> name_eqb (si_table x) t = true -> exists key, extract_key sc (si_cols x) r = KOk key) ->
-  fst (uniq_probe t sc rows l) = false.
+Lemma probe_no_panic : forall sel me sc rows l,
+  (forall k x r, In (k, x) l -> In r rows -> sel x = true ->
+     match extract_key sc (si_cols x) r with KOk _ => True | KMissing => me = true | KOob => False end) ->
+  fst (probe sel me sc rows l) = false.
 Proof.
-  intros t sc rows l H. unfold uniq_probe.
+  intros sel me sc rows l H. unfold probe.
   assert (G : forall rows0 acc, (forall r, In r rows0 -> In r rows) -> fst acc = false ->
-     fst (fold_left (fun acc r => fold_left (fun acc2 p => let '(pn, er) := uniq_probe_row t sc r (snd p) in (fst acc2 || pn, snd acc2 || er)) l acc) rows0 acc) = false).
+     fst (fold_left (fun acc r => fold_left (fun acc2 p => let '(pn, er) := probe_row sel me sc r (snd p) in (fst acc2 || pn, snd acc2 || er)) l acc) rows0 acc) = false).
   { induction rows0 as [|r rest IH]; intros acc Hsub Hacc; cbn [fold_left]; auto.
     apply IH; [intros r' Hr'; apply Hsub; right; exact Hr'|].
     assert (Hr : In r rows) by (apply Hsub; left; reflexivity).
     assert (G2 : forall l0 acc2, (forall k x, In (k, x) l0 -> In (k, x) l) -> fst acc2 = false ->
-       fst (fold_left (fun acc2 p => let '(pn, er) := uniq_probe_row t sc r (snd p) in (fst acc2 || pn, snd acc2 || er)) l0 acc2) = false).
+       fst (fold_left (fun acc2 p => let '(pn, er) := probe_row sel me sc r (snd p) in (fst acc2 || pn, snd acc2 || er)) l0 acc2) = false).
     { induction l0 as [|[k x] l1 IH2]; intros acc2 Hs Ha; cbn [fold_left]; auto.
       apply IH2; [intros k' x' HI; apply Hs; right; exact HI|].
-      cbn [snd]. unfold uniq_probe_row.
-      destruct (name_eqb (si_table x) t) eqn:Et; cbn [andb].
-      - destruct (si_unique x); cbn [fst].
-        + destruct (H k x r (Hs k x (or_introl eq_refl)) Hr Et) as [key Hk]. rewrite Hk. cbn [fst]. rewrite Ha. reflexivity.
+      cbn [snd]. unfold probe_row.
+      destruct (sel x) eqn:Es.
+      - pose proof (H k x r (Hs k x (or_introl eq_refl)) Hr Es) as Hk.
+        destruct (extract_key sc (si_cols x) r); cbn [fst].
         + rewrite Ha. reflexivity.
+        + rewrite Hk. cbn [fst]. rewrite Ha. reflexivity.
+        + contradiction.
       - cbn [fst]. rewrite Ha. reflexivity. }
     apply G2; auto. }
   apply G; auto.
+Qed.
+
+(** with a coherent cache and a full-width row the only way key extraction fails is a missing column *)
+Lemma extract_key_no_oob : forall sc cols r, cache_ok sc -> length r = length (ts_cols sc) -> extract_key sc cols r <> KOob.
+Proof.
+  intros sc cols r CO HW. induction cols as [|c cs IH]; cbn [extract_key]; [discriminate|].
+  destruct (get_column_index sc c) as [i|] eqn:Ei; [|discriminate].
+  pose proof (get_column_index_bound sc c i CO Ei) as Hb.
+  destruct (nth_error r i) as [v|] eqn:En.
+  - destruct (extract_key sc cs r); try discriminate. contradiction.
+  - apply nth_error_None in En. lia.
+Qed.
+
+(** the uniqueness scan of CREATE UNIQUE INDEX does not panic on full-width rows of existing columns *)
+Lemma unique_scan_no_panic : forall sc cols rows seen, cache_ok sc -> (forall c, In c cols -> In c (col_names sc)) ->
+  Forall (fun r => length r = length (ts_cols sc)) rows -> unique_scan sc cols rows seen <> UPanic.
+Proof.
+  intros sc cols rows. induction rows as [|r rest IH]; intros seen CO HC HW; cbn [unique_scan]; [discriminate|].
+  inversion HW as [|? ? Hr Hrest]; subst.
+  destruct (extract_key_ok sc cols r CO HC Hr) as [k Hk]. rewrite Hk.
+  destruct (key_has_null k); [apply IH; auto|].
+  destruct (existsb (key_eqb k) seen); [discriminate | apply IH; auto].
 Qed.
 
 (* ------------------------------------------------------------------------------------------ *)
